@@ -133,7 +133,8 @@ def form_feeds(text, rng):
             first = False
             if rng.random() < .3:
                 ls = P.starts[t.start[0] - 1]
-                spans.append((ls, ls, "\x0c"))
+                # blanks in front of the form feed do not count: it restarts the column
+                spans.append((ls, ls, rng.choice(["\x0c", "\x0c", " \x0c", "    \x0c", "\t\x0c", "  \x0c\x0c", "        \x0c"])))
     return derive.replace_spans(text, spans) if spans else None
 
 
